@@ -2077,9 +2077,15 @@ func (c *compiler) VisitFuncCall(e *ast.FuncCall) ast.VisitResult {
 			}
 		} else {
 			eval, valTyp, isTemp := c.evaluate(e.Args[param.Name.Literal]) // compile each argument for the function
-			if valTyp.IsPrimitive() ||
-				(!ast.IsExternFunc(fun.funcDecl) && c.optimizationLevel >= 2 && meta.IsConst[param.Name.Literal]) {
+			isConst := !ast.IsExternFunc(fun.funcDecl) && c.optimizationLevel >= 2 && meta.IsConst[param.Name.Literal]
+			if valTyp.IsPrimitive() || (isConst && (isTemp || c.canShareArgument(e, param.Name.Literal))) {
 				val = eval
+			} else if isConst {
+				// the callee does not change the parameter, but it might change the variable the argument refers to
+				// it does not free constant parameters, so the copy stays a temporary of the caller
+				dest := c.NewAlloca(valTyp.IrType())
+				c.claimOrCopy(dest, eval, valTyp, isTemp)
+				val, _ = c.scp.addTemporary(dest, valTyp)
 			} else { // function parameters need to be copied by the caller
 				dest := c.NewAlloca(valTyp.IrType())
 				c.claimOrCopy(dest, eval, valTyp, isTemp)
@@ -2134,6 +2140,43 @@ func (c *compiler) VisitFuncCall(e *ast.FuncCall) ast.VisitResult {
 		}
 	}
 	return ast.VisitRecurse
+}
+
+// helper for VisitFuncCall
+// reports wether the variable the argument for paramName refers to can be passed to a constant parameter
+// without a copy, which is only the case if the callee has no other way to change that variable
+func (c *compiler) canShareArgument(e *ast.FuncCall, paramName string) bool {
+	root := rootVarDecl(e.Args[paramName])
+	// the callee may assign to globals, and a reference parameter of the
+	// current function may refer to a global or to another argument of this call
+	if root == nil || root.IsGlobal || c.scp.lookupVar(root).isRef {
+		return false
+	}
+	for _, param := range e.Func.Parameters {
+		if param.Type.IsReference && rootVarDecl(e.Args[param.Name.Literal]) == root {
+			return false
+		}
+	}
+	return true
+}
+
+// returns the variable of which expr denotes a part or nil if it is not known
+func rootVarDecl(expr ast.Expression) *ast.VarDecl {
+	switch expr := expr.(type) {
+	case *ast.Ident:
+		decl, _ := expr.Declaration.(*ast.VarDecl)
+		return decl
+	case *ast.Indexing:
+		return rootVarDecl(expr.Lhs)
+	case *ast.FieldAccess:
+		return rootVarDecl(expr.Rhs)
+	case *ast.CastAssigneable:
+		return rootVarDecl(expr.Lhs)
+	case *ast.Grouping:
+		return rootVarDecl(expr.Expr)
+	default:
+		return nil
+	}
 }
 
 func (c *compiler) evaluateStructLiteral(structType *ddptypes.StructType, args map[string]ast.Expression) (value.Value, ddpIrType) {
